@@ -121,8 +121,14 @@ def apply(eng, rule: Rule, fr, topology, enter, leave, root):
         for m in rule.modifies:
             if isinstance(m, tuple) and m[0] == "local":
                 continue
-            if callable(m):  # fn(eng) -> ghost object of the contract that is not a variable of the traversing frame
-                out.append(m(eng))
+            if callable(m):  # fn(eng) -> object (or (object, element kinds)) that is not addressed by a fixed name of the traversing frame
+                eng.cur_frame = fr
+                t = m(eng)
+                if isinstance(t, tuple):
+                    t, hint = t
+                    if getattr(t, "items", None) is not None:
+                        t.hint = hint
+                out.append(t)
                 continue
             hint = None
             if isinstance(m, tuple):  # ("expr", element kinds): a still-concrete list / dict is promoted to a symbolic one of that element type
